@@ -16,8 +16,16 @@ import (
 	"github.com/panjf2000/ants/v2"
 )
 
-// verifAntsSubmit replaces the worker pool in the symbolic build: the task runs inline.
+// verifAsyncWorkers makes the worker-pool stub run tasks as separate threads.
+var verifAsyncWorkers bool
+
+// verifAntsSubmit replaces the worker pool in the symbolic build: the task runs inline
+// or, with verifAsyncWorkers, as a thread of its own (like a pool worker).
 func verifAntsSubmit(p *ants.Pool, task func()) error {
+	if verifAsyncWorkers {
+		go task()
+		return nil
+	}
 	task()
 	return nil
 }
